@@ -277,7 +277,9 @@ func runC18(cfg *vh.Config) error {
 		case 22:
 			prof.Collide = 4
 		case 32:
-			prof.Collide = 1 + r.Intn(4)
+			prof.Collide = 1 + r.Intn(5)
+		case 42:
+			prof.Collide = 5
 		}
 		prof.Clash = len(cases) == 4 || len(cases) == 14
 		switch len(cases) {
@@ -400,7 +402,9 @@ func runC18(cfg *vh.Config) error {
 					in[k] = v
 				}
 				in["step"] = o.Step
-				if len(keys) > 0 && reConfusion.MatchString(sig+" "+got) {
+				// (a field referring to an enum schema where a message is meant, or the reverse, is the part
+				// of the finding that 32db692 / d286176 turned into reflection errors: never relabelled)
+				if len(keys) > 0 && reConfusion.MatchString(sig+" "+got) && !strings.Contains(sig+" "+got, "EnumSchema") {
 					// one signature for the name-collision class, given only when the failure involves
 					// a colliding name; the stage and the names stay in Got
 					var parties []string
@@ -554,7 +558,11 @@ func runC18(cfg *vh.Config) error {
 				}
 				var hs []string
 				for i, s := range o.Sub {
-					hs = append(hs, fmt.Sprintf("(%s, %d)", descgen.Str(o.Names[i]), classN[s]))
+					same := i >= len(o.Same) || o.Same[i] != "diff"
+					if !same {
+						failK(scope.ofMessage(o.Names[i]), "C18 SchemaCache.Schema answer of a cache with a history is another schema than the fresh cache's (fresh ok, shared ok, schemas differ)", "the answer does not depend on earlier calls", fmt.Sprintf("order=%v at %s", o.Names, o.Names[i]))
+					}
+					hs = append(hs, fmt.Sprintf("(%s, %d, %v)", descgen.Str(o.Names[i]), classN[s], same))
 				}
 				terms = append(terms, "OHist ["+strings.Join(hs, "; ")+"]")
 			}
